@@ -71,8 +71,8 @@ Definition spec_snippet (s : sstate) (sn : snip) : sstate * obs :=
   | SnThrow w d =>
       let s1 := match d with Some (g, z) => s_def (GVar g) (VNum z) s | None => s end in
       let '(s2, out, r) := spec_where w s1 in (s2, sobs out r [])
-  | SnTryFin => (s, sobs ["t"; "f"] OOk [])
-  | SnTryCatch => (s, sobs ["7"] OOk [])
+  | SnTryFin => (s, sobs ["t"; "f"; "after"] OOk [])
+  | SnTryCatch => (s, sobs ["7"; "after"] OOk [])
   | SnFiberOk => (s, sobs ["5"] OOk [])
   | SnCaptureOk => (s_def GLeak (VClosure 42) s, sobs [] OOk [])
   | SnRange k => (s, sobs (map show_nat (seq 0 (depth_nat k))) OOk [])
